@@ -2,11 +2,61 @@ package c20
 
 import (
 	"math/rand"
+	"strings"
 
 	"verif/harness/mbt"
+	"verif/harness/props/trcheck"
 )
 
-// moduleOrder is the second half of C20 (printed definition order under permutation of the input).
-func moduleOrder(rep *mbt.Report, tier string, rng *rand.Rand) {}
+// moduleOrder is the second half of C20: Translate.tla's CanonOrder (TLC: the assembled module
+// equals the order-free ModuleOf(src) on every processing order, for every permutation of the
+// definitions of every reference pattern) and the replay of each permutation into the real parser
+// and printer: types, comdats and named metadata in natural order, attribute groups and metadata
+// by ID, globals / aliases / ifuncs / functions in textual order, merged named metadata in
+// textual order.
+func moduleOrder(rep *mbt.Report, tier string, rng *rand.Rand) {
+	permAll := 4
+	if tier == "thorough" {
+		permAll = 6
+	}
+	vs := trcheck.Generate(rep, "perms", permAll)
+	cs := trcheck.Run(vs)
+	n, discarded := 0, 0
+	for _, c := range cs {
+		if c.Want.St != "ok" {
+			continue
+		}
+		if !c.LLVMOK {
+			discarded++
+			continue
+		}
+		if c.Mod == nil || c.PrintPanic != "" {
+			continue // acceptance and printing are judged by C01/C04/C08
+		}
+		n++
+		rep.Count("perm:"+c.Text, true)
+		rep.TracesValidated++
+		if n == 1 {
+			rep.Sample(map[string]interface{}{"kind": "permutation", "src": c.Text, "required_order": c.Want.Mod})
+		}
+		for _, d := range trcheck.CompareOrder(c.Want.Mod, c.Mod, c.Printed) {
+			sec := d
+			if i := strings.Index(d, ":"); i > 0 {
+				sec = d[:i]
+			}
+			if strings.HasPrefix(sec, "named-metadata-nodes") {
+				sec = "named-metadata-nodes"
+			}
+			rep.Fail(mbt.Failure{Signature: "C20|module-order|" + sec, What: d + "\ninput:\n" + mbt.Truncate(c.Text, 400), Case: map[string]string{"src": c.Text}})
+		}
+	}
+	if discarded*10 > len(cs) {
+		mbt.Infra("LLVM rejects %d of %d permuted sources", discarded, len(cs))
+	}
+	rep.Extra["permuted_sources"] = n
+}
 
-func replayModuleOrder(rep *mbt.Report, src string) {}
+func replayModuleOrder(rep *mbt.Report, src string) {
+	// a replay re-runs the whole permutation family (the vector's required order comes from TLC)
+	moduleOrder(rep, "quick", nil)
+}
